@@ -85,7 +85,7 @@ class C11(Prop):
         'NUL/DEL/CR are not used in bodies',
     )
     probes = ('buf', 'reach')
-    probed_every = 10
+    probed_every = 20
     reach_required = ['reader.read_skip_env', 'utils.Buffer.forward_until', 'utils.Buffer.startswith', 'reader.read_tex']
     min_nontrivial = 2000
     budget_s = {'quick': 200, 'thorough': 2400}
